@@ -169,8 +169,8 @@ fn tail_steered<V: Fv>(ctx: &Ctx, nkeys: usize, per_key: usize, rep: &mut Report
         use rand::Rng;
         let j = rng.gen_range(0..V::N);
         let msg = format!("tail-{}", job).into_bytes();
-        for flip in [false, true] {
-            let bits = match crate::steer::plan::<V>(&k.sk, j, flip) {
+        for (flip, second_half) in [(false, true), (true, true), (false, false), (true, false)] {
+            let bits = match crate::steer::plan_half::<V>(&k.sk, j, flip, second_half) {
                 Some(b) => b,
                 None => {
                     rep.inconclusive("steering plan could not be computed (reference sampler)".into());
@@ -178,7 +178,7 @@ fn tail_steered<V: Fv>(ctx: &Ctx, nkeys: usize, per_key: usize, rep: &mut Report
                 }
             };
             let strat = Strategy::Directed { bits };
-            let label = format!("c01-tail-{}-{}-{}", V::NAME, job, flip);
+            let label = format!("c01-tail-{}-{}-{}-{}", V::NAME, job, flip, second_half);
             let srng = ScriptedRng::new(ctx.seed, &label, strat.clone(), progress_budget(V::N));
             let out = sign_scripted::<V>(&msg, &k.sk, srng, false, 0);
             rep.evaluations += 1;
@@ -196,9 +196,23 @@ fn tail_steered<V: Fv>(ctx: &Ctx, nkeys: usize, per_key: usize, rep: &mut Report
             };
             let sb = V::sig_to_bytes(&sig);
             let s2 = if sb.len() == V::SIG_LEN { spec::decompress(&sb[41..], V::N) } else { None };
-            let (mn, mx) = s2.as_ref().map(|v| (*v.iter().min().unwrap(), *v.iter().max().unwrap())).unwrap_or((0, 0));
-            rep.stat_min(&format!("min_s2_coefficient_{}", V::NAME), mn as f64);
-            rep.stat_max(&format!("max_s2_coefficient_{}", V::NAME), mx as f64);
+            let (mut mn, mut mx) = s2.as_ref().map(|v| (*v.iter().min().unwrap(), *v.iter().max().unwrap())).unwrap_or((0, 0));
+            if !second_half {
+                // the steered half is s1 = c - s2 h (recomputed with the reference ring)
+                if let Some((s1, _)) = if sb.len() == V::SIG_LEN { spec::recover_s(&msg, &sb[1..41], &sb[41..], &hs[ki]) } else { None } {
+                    mn = *s1.iter().min().unwrap();
+                    mx = *s1.iter().max().unwrap();
+                    rep.stat_min(&format!("min_s1_coefficient_{}", V::NAME), mn as f64);
+                    rep.stat_max(&format!("max_s1_coefficient_{}", V::NAME), mx as f64);
+                    let six = (6.0 * V::SIGMA).ceil() as i64;
+                    if mn <= -six || mx >= six {
+                        rep.count("signatures_with_s1_beyond_6_sigma", 1);
+                    }
+                }
+            } else {
+                rep.stat_min(&format!("min_s2_coefficient_{}", V::NAME), mn as f64);
+                rep.stat_max(&format!("max_s2_coefficient_{}", V::NAME), mx as f64);
+            }
             let v1 = monitored(|| V::verify(&msg, &sig, &k.pk));
             let (v2, trace) = if sb.len() == V::SIG_LEN { spec::verify_traced(&msg, &sb[1..41], &sb[41..], &hs[ki]) } else { (false, spec::VerifyTrace::BadEncoding) };
             match v1 {
@@ -214,6 +228,10 @@ fn tail_steered<V: Fv>(ctx: &Ctx, nkeys: usize, per_key: usize, rep: &mut Report
             }
             rep.count("tail_steered_signatures", 1);
             let six_sigma = (6.0 * V::SIGMA).ceil() as i64;
+            if !second_half {
+                rep.nontrivial(format!("tail-s1|{}|{}|{}|{}", V::NAME, hex(&k.seed[..6]), j, flip).as_bytes());
+                continue;
+            }
             if mn <= -six_sigma {
                 rep.count("signatures_with_s2_below_minus_6_sigma", 1);
             }
@@ -278,6 +296,7 @@ pub fn matrix(ctx: &Ctx, rep: &mut Report) {
     tail_steered::<F1024>(ctx, 2, ctx.sz(6, 100), rep);
     rep.require("signatures_with_s2_below_minus_6_sigma", 8);
     rep.require("signatures_with_s2_above_6_sigma", 8);
+    rep.require("signatures_with_s1_beyond_6_sigma", 8);
     extreme_salts::<F512>(ctx, rep);
     extreme_salts::<F1024>(ctx, rep);
     matrix_v::<F1024>(ctx, ctx.sz(4, 200), rep);
